@@ -352,7 +352,8 @@ Record jcase := {
   jc_input : bytes;               (* the bytes the implementation was given *)
   jc_updates : list jupdate;
   jc_obs : jobs;
-  jc_reread_ok : bool }.          (* harness: Read(written file) = Read(input) with the versions substituted *)
+  jc_reread_ok : bool;            (* harness: Read(written file) = Read(input) with the versions substituted *)
+  jc_from_read : bool }.          (* harness: every update was built from a requirement that Read reported for this file *)
 
 Definition jcase_in_fragment (c : jcase) : bool :=
   doc_frag (jc_doc c) && forallb upd_frag (jc_updates c).
@@ -379,12 +380,28 @@ Definition jcase_model_ok (c : jcase) : bool :=
 Definition jcase_claimed (c : jcase) : bool :=
   wf_doc (jc_doc c) && forallb (addressed (jc_doc c)) (jc_updates c) && distinct_keys (jc_updates c).
 
-Definition jcase_spec_full (c : jcase) : bool :=
-  negb (jcase_claimed c) ||
-  match jc_obs c with
-  | JObsOk out => beq out (render (spec_apply (jc_doc c) (jc_updates c))) && jc_reread_ok c
-  | _ => false
+(* the key is spelled the same way wherever the dependency sections mention it (and is mentioned) *)
+Definition consistent_key (d : doc) (key : bytes) : bool :=
+  match flat_map (fun sec => map m_val (filter (fun m => beq key (m_key m)) (sec_members d sec))) SECS with
+  | [] => false
+  | v :: r => forallb (beq v) r
   end.
+
+(* Read and Write must agree on what a member spells: an update built from a requirement Read reported, for a key
+   that is spelled consistently, has to be writable -- Write succeeds and the re-read requirements carry VersionTo
+   (this holds whatever attributes Read put on the requirement, e.g. for a package aliased to its own name) *)
+Definition jcase_read_claimed (c : jcase) : bool :=
+  jc_from_read c && wf_doc (jc_doc c) && distinct_keys (jc_updates c) &&
+  forallb (fun u => consistent_key (jc_doc c) (upd_key u)) (jc_updates c).
+
+Definition jcase_spec_full (c : jcase) : bool :=
+  (negb (jcase_claimed c) ||
+   match jc_obs c with
+   | JObsOk out => beq out (render (spec_apply (jc_doc c) (jc_updates c))) && jc_reread_ok c
+   | _ => false
+   end) &&
+  (negb (jcase_read_claimed c) ||
+   match jc_obs c with JObsOk _ => jc_reread_ok c | _ => false end).
 
 (* ... claimed wherever the model is the code: modelled fragment, names supported by Escape *)
 Definition jcase_spec_ok (c : jcase) : bool :=
